@@ -12,6 +12,9 @@ Bind: every "done" state is rebuilt with real Host / Metadata.rebuild_token_map 
       before and just after every ring token (harness/replay/placement.py).  AlterReplication histories
       (settings installed, every key looked up, new settings installed through Metadata._update_keyspace /
       _rebuild_all as a schema refresh does, ...) must answer with the replicas of the CURRENT settings.
+      MoveHost histories (a host changes datacenter/rack, same address and tokens) run on a real Cluster over
+      simulated nodes: the real ControlConnection._refresh_node_list_and_token_map learns the move from
+      system.local / system.peers; replicas looked up before the move must not survive it.
 """
 import os
 
@@ -42,27 +45,30 @@ INVARIANTS = ["TypeOK", "SimpleCount", "NTSCountPerDc", "NTSRackDiversity", "Cla
               "CurrentSettingsOnly"]
 ACTIONS = ["OldToken", "NewToken", "Finish"]
 WITNESSES = ["Witness_RackRepeatConsecutive", "Witness_SimpleWraps", "Witness_DcWithoutRf",
-             "Witness_AlterChangesReplicas"]
+             "Witness_AlterChangesReplicas", "Witness_MoveChangesReplicas"]
 MAX_REPORTED_PER_SIGNATURE = 2
 
 
 def consts_for(ctx, which):
     if which == "exhaustive":
         if ctx.quick:
-            return {"MaxHosts": 4, "MaxDCs": 2, "MaxRacks": 2, "MaxRing": 5, "MaxRF": 4, "Lens": set(range(1, 6)), "MaxAlters": 0}
-        return {"MaxHosts": 4, "MaxDCs": 2, "MaxRacks": 3, "MaxRing": 6, "MaxRF": 4, "Lens": set(range(1, 7)), "MaxAlters": 0}
+            return {"MaxHosts": 4, "MaxDCs": 2, "MaxRacks": 2, "MaxRing": 5, "MaxRF": 4, "Lens": set(range(1, 6)), "MaxAlters": 0, "MaxMoves": 0, "MaxOps": 0}
+        return {"MaxHosts": 4, "MaxDCs": 2, "MaxRacks": 3, "MaxRing": 6, "MaxRF": 4, "Lens": set(range(1, 7)), "MaxAlters": 0, "MaxMoves": 0, "MaxOps": 0}
     if which == "alter":        # histories: settings installed, replicas looked up, settings altered (MaxAlters times)
         if ctx.quick:
-            return {"MaxHosts": 3, "MaxDCs": 2, "MaxRacks": 2, "MaxRing": 3, "MaxRF": 2, "Lens": {2, 3}, "MaxAlters": 1}
-        return {"MaxHosts": 3, "MaxDCs": 2, "MaxRacks": 2, "MaxRing": 4, "MaxRF": 2, "Lens": {2, 3, 4}, "MaxAlters": 2}
+            return {"MaxHosts": 3, "MaxDCs": 2, "MaxRacks": 2, "MaxRing": 3, "MaxRF": 2, "Lens": {2, 3}, "MaxAlters": 1, "MaxMoves": 1, "MaxOps": 1}
+        return {"MaxHosts": 3, "MaxDCs": 2, "MaxRacks": 2, "MaxRing": 3, "MaxRF": 2, "Lens": {2, 3}, "MaxAlters": 2, "MaxMoves": 2, "MaxOps": 2}
     if which == "witness":
-        return {"MaxHosts": 3, "MaxDCs": 2, "MaxRacks": 2, "MaxRing": 4, "MaxRF": 3, "Lens": {4}, "MaxAlters": 1}
-    return {"MaxHosts": 6, "MaxDCs": 2, "MaxRacks": 3, "MaxRing": 8, "MaxRF": 4, "Lens": {5, 6, 7, 8}, "MaxAlters": 0}
+        return {"MaxHosts": 3, "MaxDCs": 2, "MaxRacks": 2, "MaxRing": 4, "MaxRF": 3, "Lens": {4}, "MaxAlters": 1, "MaxMoves": 1, "MaxOps": 1}
+    return {"MaxHosts": 6, "MaxDCs": 2, "MaxRacks": 3, "MaxRing": 8, "MaxRF": 4, "Lens": {5, 6, 7, 8}, "MaxAlters": 0, "MaxMoves": 0, "MaxOps": 0}
 
 
 def signature_of(inst, bad):
     kind = inst["strat"]["kind"]
-    if inst.get("hist"):
+    if inst.get("log"):                   # a host changed datacenter/rack after replicas had been looked up
+        control = any(e["op"] == "move" and e["h"] == 1 for e in inst["log"])
+        kind = ("move(control-host)->" if control else "move->") + kind
+    elif inst.get("hist"):
         kind = "alter->" + kind           # replication settings altered after replicas had been looked up
     whys = {b["why"] for b in bad}
     if "exception" in whys:
@@ -88,6 +94,10 @@ def is_nontrivial(inst):
 def describe(inst, bad):
     b = bad[0]
     settings = " altered to ".join(str(h) for h in inst["hist"]) if inst.get("hist") else str(inst["strat"])
+    if inst.get("log"):
+        settings = "%s at first in dc %s rack %s, then %s" % (inst["hist"][0], inst["dc0"], inst["rack0"], "; ".join(
+            ("host %d moves to dc %d rack %d" % (e["h"], e["d"], e["r"])) if e["op"] == "move" else ("altered to %s" % e["s"])
+            for e in inst["log"]))
     return ("ring owners %s, dc %s, rack %s, %s: key position %s (token of position i is 2i): Cassandra's placement "
             "gives %s, get_replicas returns %s (%s)" % (inst["ring"], inst["dc"], inst["rack"], settings,
                                                          b["key"], b["spec"], b["code"], b["why"]))
@@ -99,16 +109,16 @@ class Tally:
         self.ok = 0
 
     def add(self, ctx, inst):
-        bad = P.evaluate(inst)
+        bad = P.evaluate_history(inst) if inst.get("log") else P.evaluate(inst)
         ctx.evaluations += 1
         if bad:
             sig = signature_of(inst, bad)
-            self.bad.setdefault(sig, []).append(((len(inst["ring"]), len(inst["dc"]), repr(inst.get("hist") or inst["strat"])), inst, bad))
+            self.bad.setdefault(sig, []).append(((len(inst["ring"]), len(inst["dc"]), repr(inst.get("log") or inst.get("hist") or inst["strat"])), inst, bad))
             return False
         self.ok += 1
         ctx.traces_validated += 1
         if is_nontrivial(inst):
-            ctx.nontrivial((tuple(inst["ring"]), tuple(inst["dc"]), tuple(inst["rack"]), repr(inst.get("hist") or inst["strat"])))
+            ctx.nontrivial((tuple(inst["ring"]), tuple(inst["dc"]), tuple(inst["rack"]), repr(inst.get("log") or inst.get("hist") or inst["strat"])))
         return True
 
     def report(self, ctx):
@@ -164,23 +174,34 @@ def run(ctx):
         if ok and is_nontrivial(inst) and n % 1500 == 7:
             ctx.sample({k: inst[k] for k in ("ring", "dc", "rack", "strat", "byKey")})
 
-    # ---------------------------------------------------------------- altered replication settings
+    # ---------------------------------------------------------------- histories: settings altered, hosts moved
     aconsts = consts_for(ctx, "alter")
-    acfg = tlc.write_cfg(os.path.join(ctx.scratch, "PlacementAlter.cfg"), constants=aconsts, invariants=INVARIANTS, deadlock=False)
+    acfg = tlc.write_cfg(os.path.join(ctx.scratch, "PlacementHist.cfg"), constants=aconsts, invariants=INVARIANTS, deadlock=False)
     ares, astates = tlc.enumerate_states("Placement", acfg, ctx.scratch, coverage=True, timeout=300 if ctx.quick else 1500)
-    ctx.add_tlc(ares, "exhaustive:alter")
+    ctx.add_tlc(ares, "exhaustive:histories")
     if ares.violation:
-        ctx.violation("TLC: invariant %s violated in Placement.tla (AlterReplication)" % ares.invariant,
+        ctx.violation("TLC: invariant %s violated in Placement.tla (AlterReplication / MoveHost)" % ares.invariant,
                       replay={"trace": [s for _, s in ares.trace()]}, signature="spec:" + str(ares.invariant))
         return
-    if ares.coverage().get("AlterReplication", (0, 0))[1] == 0:
-        raise tlc.MachineryError("action AlterReplication never taken")
-    histories = [P.instance_of(s) for s in done_states(astates) if len(s["hist"]) > 1]
+    for a in ("AlterReplication", "MoveHost"):
+        if ares.coverage().get(a, (0, 0))[1] == 0:
+            raise tlc.MachineryError("action %s never taken" % a)
+    static = {}
+    histories, moves = [], []
+    for st in done_states(astates):
+        inst = P.instance_of(st)
+        if inst.get("log"):
+            moves.append(inst)
+        elif inst.get("hist"):
+            histories.append(inst)
+        else:
+            static[(tuple(inst["ring"]), tuple(inst["dc"]), tuple(inst["rack"]), repr(inst["strat"]))] = inst
     del astates
-    ctx.note("constants_alter", {k: (sorted(v) if isinstance(v, set) else v) for k, v in aconsts.items()})
+    ctx.note("constants_histories", {k: (sorted(v) if isinstance(v, set) else v) for k, v in aconsts.items()})
     ctx.note("altered_histories", len(histories))
-    if not histories:
-        raise tlc.MachineryError("TLC produced no history with altered replication settings")
+    ctx.note("move_histories_enumerated", len(moves))
+    if not histories or not moves:
+        raise tlc.MachineryError("TLC produced no history with altered replication settings / moved hosts")
     kinds = {(h["hist"][-2]["kind"], h["hist"][-1]["kind"]) for h in histories}
     if kinds != {("Simple", "Simple"), ("Simple", "NTS"), ("NTS", "Simple"), ("NTS", "NTS")}:
         raise tlc.MachineryError("alterations enumerated do not cover all strategy changes: %s" % sorted(kinds))
@@ -197,8 +218,37 @@ def run(ctx):
     if P.evaluate(swapped) == P.evaluate(stale):
         raise tlc.MachineryError("binding self-test failed: order of replication settings does not influence the verdict")
 
+    # host moves, bound on a real Cluster whose node list is refreshed by the real control connection: all histories
+    # in which the (single) move changes some replica set, a quarter (quick) / all (thorough) of the others
+    def changes(inst):
+        if len(inst["log"]) != 1:
+            return True
+        before = static.get((tuple(inst["ring"]), tuple(inst["dc0"]), tuple(inst["rack0"]), repr(inst["hist"][0])))
+        return before is None or before["byKey"] != inst["byKey"]
+    moves.sort(key=lambda m: (m["ring"], m["dc0"], m["rack0"], repr(m["hist"]), repr(m["log"])))
+    budget = 1500 if ctx.quick else 12000
+    chosen = [m for m in moves if changes(m)]
+    rest = [m for m in moves if not changes(m)]
+    step = 4 if ctx.quick else 1
+    chosen = (chosen + rest[::step])[:budget] if len(chosen) <= budget else chosen[::(len(chosen) // budget + 1)]
+    ctx.note("move_histories_bound", len(chosen))
+    changed_clean = None
+    for n, inst in enumerate(chosen):
+        ok = tally.add(ctx, inst)
+        if ok and changes(inst) and len(inst["log"]) == 1 and changed_clean is None:
+            changed_clean = inst
+        if ok and n % 500 == 7:
+            ctx.sample({k: inst[k] for k in ("ring", "dc0", "rack0", "hist", "log", "byKey")})
+    # self-test: without the move the same expectations must be rejected
+    if changed_clean is not None:
+        if not P.evaluate_history(dict(changed_clean, log=[])):
+            raise tlc.MachineryError("binding self-test failed: dropping the host move does not influence the verdict")
+        selftest_move = 1
+    else:
+        selftest_move = 0                    # (possible only when the driver under test fails every such history)
+
     # ---------------------------------------------------------------- binding self-test
-    selftest = {"corrupted_rejected": 0}
+    selftest = {"corrupted_rejected": 0, "dropped_rejected": selftest_move}
     probe = next(i for i in insts if len(i["ring"]) >= 3 and len(set(i["ring"])) >= 2 and i["strat"]["kind"] == "Simple"
                  and i["strat"]["rf"] == 1)
     bad1 = dict(probe, byKey=[sorted(set(x) | {h for h in probe["ring"]}) for x in probe["byKey"]])
@@ -242,8 +292,8 @@ def run(ctx):
 
 def replay(ctx, obj):
     inst = obj["instance"]
-    bad = P.evaluate(inst)
-    print("instance: ring owners %s dc %s rack %s %s" % (inst["ring"], inst["dc"], inst["rack"], inst["strat"]))
+    bad = P.evaluate_history(inst) if inst.get("log") else P.evaluate(inst)
+    print("instance: ring owners %s dc %s rack %s %s %s" % (inst["ring"], inst["dc"], inst["rack"], inst["strat"], inst.get("log") or inst.get("hist") or ""))
     for b in bad:
         print("  key position %s: spec %s, code %s (%s)" % (b["key"], b["spec"], b["code"], b["why"]))
     if bad:
